@@ -674,6 +674,58 @@ fn witness_prefix(rep: &mut Report) {
     std::env::set_current_dir("/verif").unwrap();
 }
 
+/// Props.C12.C12_symlink_one_record / C12_symlink_no_source_dir_witness on the real code:
+/// `lib/util.c`, `include -> lib`, `compat.c -> lib/util.c`, the three names of the one file
+fn witness_links(rep: &mut Report) {
+    let base = rep.workdir.join("fs");
+    let s = |x: &[&str]| -> Vec<String> { x.iter().map(|y| y.to_string()).collect() };
+    let mut t = materialise(&base, 904, &s(&["src", "other", "cw", "src/lib"]), &s(&["src/lib/util.c"]));
+    add_links(&mut t, &[("src/include".into(), "lib".into()), ("src/compat.c".into(), "lib/util.c".into())]);
+    t.cw = t.src.clone(); // the Lean witness runs from the source dir
+    std::env::set_current_dir(&t.cw).unwrap();
+    let batch: Vec<(String, CovResult)> = ["lib/util.c", "include/util.c", "compat.c"]
+        .iter()
+        .enumerate()
+        .map(|(i, k)| {
+            let mut c = CovResult::default();
+            c.lines.insert(1, i as u64 + 1);
+            (k.to_string(), c)
+        })
+        .collect();
+    let abs = format!("{}/lib/util.c", t.src);
+    for (name, sd, want) in [
+        ("one_record", Some(t.src.clone()), format!("ok A{}:R{}=L1:6;B;F", hex(abs.as_bytes()), hex(b"lib/util.c"))),
+        ("no_source_dir_three_records", None, {
+            let mut v: Vec<String> = [("lib/util.c", 1), ("include/util.c", 2), ("compat.c", 3)]
+                .iter()
+                .map(|(r, n)| format!("A{}:R{}=L1:{};B;F", hex(abs.as_bytes()), hex(r.as_bytes()), n))
+                .collect();
+            v.sort();
+            format!("ok {}", v.join(" "))
+        }),
+    ] {
+        let case = C12Case {
+            cfg: Cfg { sd, pd: None, mapping: None, ignore: vec![], keep: vec![], ine: false, filter: None },
+            batches: vec![batch.clone()],
+        };
+        let r = run_impl_c12(&case);
+        let req = request("addrewrite", &t, &case.cfg, &case.flat());
+        let model = run_model_named("gm_c12", &[req.clone()], &rep.workdir, "witnessl");
+        rep.case(&req, true);
+        rep.count(&format!("witness.symlink.{}", name));
+        if model[0] != want {
+            rep.fail("disagreement", None, format!("the driver does not reproduce the Lean witness {}: {}", name, model[0]), case.to_json(&t));
+        }
+        if show_recs(&r) == want {
+            rep.count(&format!("witness.symlink.{}.reproduced_on_real_code", name));
+        } else {
+            rep.fail("disagreement", None, format!("symlink witness {} no longer behaves as proved: {}", name, show_recs(&r)), case.to_json(&t));
+        }
+        report_case(rep, &t, &case, &r, &model[0], "witnessl");
+    }
+    std::env::set_current_dir("/verif").unwrap();
+}
+
 /// The same property through the command line (main()'s wiring of --source-dir, --prefix-dir and
 /// --path-mapping around add_results and rewrite_paths): every input names files that exist under
 /// the source directory (the `canonical` guard of C12_unique_partial), in several spellings.
@@ -782,11 +834,12 @@ pub fn run(rep: &mut Report) {
     let mut rng = Rng::new(fnv64(&(rep.seed ^ 0xC12).to_le_bytes()));
     witness(rep);
     witness_prefix(rep);
+    witness_links(rep);
     stream(rep, &mut rng);
     std::env::set_current_dir("/verif").unwrap();
     cli_stream(rep, &mut rng);
     rep.notes.push("observation (counted as out.distinct_files_one_path, not judged by C12): with a source dir whose last component is T, a relative key T/../x is resolved by guess_abs_path to <parent of source dir>/x, outside the source dir, and is reported with the relative path x; if x is also reported for <source dir>/x, two different files share one path".into());
-    rep.notes.push("the main stream is in-process (add_results, rewrite_paths, output_covdir); a second, small stream drives the CLI with files existing under --source-dir and --path-mapping / --prefix-dir options. Java/Kotlin keys, markers and symlinks are outside the generated domain; keys that denote a directory are not written with output_covdir (it panics on an empty path: not this property)".into());
+    rep.notes.push("the main stream is in-process (add_results, rewrite_paths, output_covdir); a second, small stream drives the CLI with files existing under --source-dir and --path-mapping / --prefix-dir options. every second tree has symbolic links (directory and file links, chains, relative and absolute targets, into and out of the source dir, dangling, loops) and files are also named through them; Java/Kotlin keys and markers are outside the generated domain; keys that denote a directory are not written with output_covdir (it panics on an empty path: not this property)".into());
 }
 
 pub fn replay(rep: &mut Report, case: &Value) {
